@@ -179,6 +179,17 @@ CHECKS["C13"] = (
     "set with no form twice (skip mode), or against the four weaker clauses of the statement (append / overwrite).",
     "Assumes TLC and the projection; target regexes are limited to the three families the spec interprets; terminal "
     "variable modifications are not counted against max_mods (the statement speaks of sites).", "DESIGN.md §6 C13")
+CHECKS["C09"] = (
+    "Exhaustive enumeration of token strings replayed into the real parser + TLC trace validation of every outcome "
+    "class (Trace_Parser!BucketFails) and of the deferred-validation corpus against the TLA+ modification semantics "
+    "(Trace_Parser!DeferredFails over Mods.tla)",
+    "Every string of up to 4 (quick) / 5 (thorough) tokens over the 27-token alphabet is parsed, serialised and "
+    "validated by the real code under a watchdog; every outcome class that occurs (with counts and witnesses) is "
+    "judged by TLC: only 'returned and serialisable' or a ValueError are allowed. For the deferred clause TLC decides "
+    "from the independent semantics whether a value has a meaning and requires parse to succeed and mass / comp to "
+    "raise a ValueError exactly for the meaningless ones.",
+    "Assumes TLC and the projection (exception class + isinstance ValueError). The character-level parser machine in "
+    "TLA+ is future work (DESIGN.md §8); hangs are detected by a 2 s watchdog.", "DESIGN.md §6 C09")
 NOT_YET = "check not built yet in this round (planned with the TLA+ technique, see DESIGN.md §6)"
 
 
